@@ -34,7 +34,7 @@ var c04Endpoints = []string{"connect", "update", "updateLegacy", "peer", "host",
 
 var c04Alterations = []string{
 	"none", "none", "none",
-	"method", "identity", "idcase", "nonce+1", "nonce-1", "param", "sigbyte", "otherkey", "empty", "short", "garbage", "alphabet", "style", "prefixjunk",
+	"method", "identity", "idcase", "nonce+1", "nonce-1", "param", "sigbyte", "otherkey", "empty", "short", "garbage", "alphabet", "style", "prefixjunk", "malleate", "idsuffix",
 }
 
 func genText(rt *rapid.T, label string) string {
@@ -492,6 +492,21 @@ func TestC04SignedEndpoints(t *testing.T) {
 				} else {
 					signKey = other.key
 				}
+			case "idsuffix":
+				// a stranger claims an identity that is only the tail of its own address / id (or nothing at all) and
+				// signs that claim correctly with its own key
+				stranger := other
+				full := other.nodeID
+				if r.wallet {
+					stranger, full = otherWallet, strings.ToLower(otherWallet.addr[2:])
+				}
+				k := rapid.SampledFrom([]int{0, 1, 6, 10, len(full) - 1}).Draw(rt, "suffixLen")
+				id = full[len(full)-k:]
+				if r.wallet && rapid.Bool().Draw(rt, "with0x") {
+					id = "0x" + id
+				}
+				signKey, signID = stranger.key, id
+				detail = fmt.Sprintf("suffix of length %d", k)
 			}
 			if len(signArgs) == 0 {
 				sig = mustSign(signKey, signMethod, signID, signNonce)
@@ -558,6 +573,28 @@ func TestC04SignedEndpoints(t *testing.T) {
 				} else {
 					sig = hex.EncodeToString(decode(sig))
 				}
+			case "malleate":
+				// the other signature of the same (r, s) pair: s' = n - s with the recovery id flipped. Node-style
+				// signatures are checked against the node id's key with the low-s rule, so the twin must be refused.
+				// (Wallet-style signatures are checked by key recovery, which has no such rule; the twin is the same
+				// signer over the same content and changes more than one byte - not generated.)
+				if r.wallet {
+					sig = ""
+					detail = "wallet: empty instead"
+				} else {
+					b := decode(sig)
+					n, _ := new(big.Int).SetString("fffffffffffffffffffffffffffffffebaaedce6af48a03bbfd25e8cd0364141", 16)
+					s2 := new(big.Int).Sub(n, new(big.Int).SetBytes(b[32:64]))
+					sb := s2.Bytes()
+					copy(b[32:64], make([]byte, 32))
+					copy(b[64-len(sb):64], sb)
+					if len(b) > 64 {
+						b[64] ^= 1
+					}
+					sig = encode(b)
+				}
+			case "idsuffix":
+				// handled below (needs its own signature)
 			case "prefixjunk":
 				// characters inserted between the hex prefix and the signature proper (wallet style), or a prefix where
 				// none belongs (node style: base64 has no prefix)
@@ -621,7 +658,7 @@ func TestC04SignedEndpoints(t *testing.T) {
 				}
 				// ... nor may it have used up the nonce it carried: the named identity's own, correctly signed request
 				// with that very nonce is still a fresh request and must pass verification
-				if alt != "nonce-1" && alt != "idcase" {
+				if alt != "nonce-1" && alt != "idcase" && alt != "idsuffix" {
 					owner, ownerID := r.who, r.id()
 					if alt == "identity" {
 						ownerID = id
